@@ -1150,8 +1150,9 @@ class FnKinds:
                 start_call = sc
         if start_call is not None and start_call.get("n") in ("begin", "cbegin") and not start_call.get("a"):
             end_call = self._resolve_iter_start(rhs)
-            o1 = self.okey(start_call.get("obj"))
-            if end_call is not None and end_call.get("n") in ("end", "cend") and o1 is not None and o1 == self.okey(end_call.get("obj")):
+            o1 = self.okey(start_call.get("obj")) or ("<%s>" % self.canon(start_call.get("obj")))
+            o2 = (self.okey(end_call.get("obj")) or ("<%s>" % self.canon(end_call.get("obj")))) if end_call is not None else None
+            if end_call is not None and end_call.get("n") in ("end", "cend") and o1 == o2:
                 ok_inc = any((_is_incdec(x) or (None, 0))[0] is not None and _is_incdec(x)[0].get("d") == var["d"] for x in incs)
                 if ok_inc:
                     lp = Loop("adj", f, var=var["d"], obj=o1, obj_end=o1, node_expr=None, node_expr_end=None, depth=depth,
@@ -1890,7 +1891,7 @@ class FnKinds:
                 self.expr(n["a"][0])
                 return
             self.ev("call", n, callee=n.get("callee"), name=name, obj=self.okey(n.get("obj")) if n.get("obj") is not None else self.this_key,
-                    args_canon=[self.canon(a) for a in n.get("a", [])], args_rng=[self.rng(a) for a in n.get("a", [])] if name in ("push_back", "emplace_back") else None)
+                    args_canon=[self.canon(a) for a in n.get("a", [])], args_rng=[self.rng(a) for a in n.get("a", [])] if name in ("push_back", "emplace_back", "insert") else None)
             self._index_params(n)
             if n.get("obj") is not None:
                 self.expr(n["obj"])
